@@ -264,7 +264,11 @@ func wireAdversary(run *ev.Run) (cases, nontrivial int, samples []any) {
 	clean := cleanStream(orig, nonce, 2)
 	fs := split(clean)
 	if got, _ := receive(clean, nonce); strings.Join(got, ",") != strings.Join(orig, ",") {
-		ev.Unbound(fmt.Sprintf("clean stream not fully applied: %v (%d frames)", got, len(fs)))
+		// the UNMANIPULATED stream of a burst of 6 queued entries is itself not applied completely:
+		// that is the property (reader applies every queued entry, healthy connection kept), not a harness problem
+		run.Violate("reader-did-not-apply-every-queued-entry|burst of 6 entries, checkpoint every 2, no wire manipulation",
+			"the real receiver stopped applying an unmanipulated stream produced by the real sender", map[string]any{"queued": orig, "applied": got, "frames": len(fs)})
+		return 1, 1, []any{map[string]any{"clean_stream_frames": len(fs), "applied": got}}
 	}
 	other := split(cleanStream([]string{"x1", "x2", "x3", "x4", "x5", "x6"}, "another-session-nonce", 2))
 	// position (index in fs) of the first checkpoint at or after frame i
